@@ -656,6 +656,50 @@ Section Model.
       (fold_left (fun s cl => set_leo s (fst cl) (snd cl)) ls (commit st1 b), rs)
     end.
 
+  (* ---- compat.go: ChannelStore.DiscardForRestore (restore-failure cleanup) ---------------- *)
+
+  (* page bounds (function-local constants restoreDiscardBatchMessages / ...Bytes) *)
+  Definition restoreDiscardBatchMessages : Z := 1024.
+  Definition restoreDiscardBatchBytes : Z := 8388608.
+
+  (* the channel partition: every channel-local key; the global message-id index
+     and the catalog row live outside *)
+  Definition in_partition (c : N) (k : key) : bool :=
+    match k with
+    | KyRow c' _ | KyCidx c' _ _ | KyIdem c' _ _ | KySseq c' _ _
+    | KyCkpt c' | KyRet c' | KyHist c' _ _ | KyIdent c' _ => c' =? c
+    | KyGid _ | KyCat _ => false
+    end.
+
+  (* the page loop: every page is ONE synchronous batch deleting the rows of the
+     page with all their secondary indexes (stageDeleteMessage); it ends when a
+     read from the next sequence finds nothing.  [fuel] > number of rows. *)
+  Fixpoint discard_pages (fuel : nat) (st : mstate) (c next : N) : mstate * res unit :=
+    match fuel with
+    | O => (st, err ECorruptState)
+    | S fuel' =>
+      match readForward (st_kv st) c next 0 restoreDiscardBatchMessages restoreDiscardBatchBytes with
+      | inr e => (st, err (toChannelError e))
+      | inl [] => (st, ok tt)
+      | inl rows =>
+        let st1 := commit st (flat_map (stageDeleteMessage c) rows) in
+        if last_seq rows <? next then (st1, err ECorruptState)
+        else discard_pages fuel' st1 c (last_seq rows + 1)
+      end
+    end.
+
+  (* ... then the terminal batch: range delete of the partition + the catalog row;
+     the cached log end is dropped, the membership filter stays (it is negative) *)
+  Definition DiscardForRestore (st : mstate) (c : N) : mstate * res unit :=
+    let '(st1, r) := discard_pages (S (length (rows_unsorted (st_kv st) c))) st c 1 in
+    match r with
+    | inr e => (st1, err e)
+    | inl _ =>
+      let st2 := commit st1 [DelRange (in_partition c); Del (KyCat c)] in
+      let cc := st_cache st2 c in
+      (set_cache st2 c (CC 0 false (cc_filter cc) (cc_floaded cc)), ok tt)
+    end.
+
   (* ---- read API ------------------------------------------------------------------------ *)
 
   Definition Read (st : mstate) (c fromSeq : N) (limit maxb : Z) : res (list row) :=
@@ -752,7 +796,8 @@ Section Model.
   | OLeo (c : N)
   | ORet (c : N)
   | OLoadCk (c : N)
-  | OHist (c : N).
+  | OHist (c : N)
+  | ODiscard (c : N).                (* compat DiscardForRestore: SEVERAL batches (pages + terminal) *)
 
   (* a materialised message as the API returns it *)
   Record msg := M {
@@ -782,7 +827,7 @@ Section Model.
   Definition is_mutation (o : op) : bool :=
     match o with
     | OAppend _ _ _ _ | OApply _ _ _ _ _ | OCApp _ _ _ | OCBatch _ | OTrunc _ _ | OCTrunc _ _ | OTrim _ _ _ _
-    | OCkpt _ _ _ _ | OCkptM _ _ _ _ _ _ | ORelease _ => true
+    | OCkpt _ _ _ _ | OCkptM _ _ _ _ _ _ | ORelease _ | ODiscard _ => true
     | _ => false
     end.
 
@@ -790,7 +835,8 @@ Section Model.
     match o with
     | OAppend c _ _ _ | OApply c _ _ _ _ | OCApp c _ _ | OTrunc c _ | OCTrunc c _ | OTrim c _ _ _
     | OCkpt c _ _ _ | OCkptM c _ _ _ _ _ | ORelease c | ORead c _ _ _ | ORRead c _ _ _ | OGet c _
-    | OById c _ | OByCno c _ _ _ | OIdem c _ _ | OLastS c _ _ | OLeo c | ORet c | OLoadCk c | OHist c => c
+    | OById c _ | OByCno c _ _ _ | OIdem c _ _ | OLastS c _ _ | OLeo c | ORet c | OLoadCk c | OHist c
+    | ODiscard c => c
     | OReopen | OCBatch _ => 0
     end.
 
@@ -834,6 +880,7 @@ Section Model.
     | ORet c => (st, XTriple (loadRetentionState (st_kv st) c))
     | OLoadCk c => (st, XTriple (loadCheckpoint (st_kv st) c))
     | OHist c => (st, XPairs (loadHistory (st_kv st) c))
+    | ODiscard c => let '(st', r) := DiscardForRestore st c in (st', out_of r (fun _ => XOk))
     end.
 
   (* what the harness reads after a mutation: LEO, then Read(1, {}) printed in
